@@ -227,31 +227,28 @@ theorem tick_none_quiet (env : Env) (c : Conn) (hs : c.sock = true) (ha : c.stat
   have h4 : ¬ (c.hb * 2 * 1000 < env.now - c.lastTime) := by omega
   simp [tick, M.run, tickBody, hs, ha, hn, h1', h4]
 
-/-- ACTIVE with an outstanding (truthy) TestReqID `id`: the iteration disconnects iff
-`now − id·1000 > 2·hb·1000`; otherwise it writes nothing and only refreshes `lastTime` when the idle
-threshold is exceeded. -/
+/-- ACTIVE with an outstanding (truthy) TestReqID `id` (after fix e3d9663): the iteration writes nothing and
+does not touch `lastTime`; it disconnects iff `now − lastTime > 2·hb·1000` and (`lastTime ≠ 0`, the
+"message last time" test, or the id is older than `2·hb·1000` too, the TestRequest test). -/
 theorem tick_outstanding (env : Env) (c : Conn) (id : Int) (hs : c.sock = true) (ha : c.state = st_ACTIVE)
-    (hid : c.testReqId = some id) (h0 : id ≠ 0) (hh : 1 ≤ c.hb) :
+    (hid : c.testReqId = some id) (h0 : id ≠ 0) :
     tick env c =
-      if c.hb * 2 * 1000 < env.now - id * 1000 then (dropped c, dropEff)
-      else if (c.hb - 1) * 1000 < env.now - c.lastTime then ({ c with lastTime := env.now }, [])
+      if c.hb * 2 * 1000 < env.now - c.lastTime ∧ (c.lastTime ≠ 0 ∨ c.hb * 2 * 1000 < env.now - id * 1000) then
+        (dropped c, dropEff)
       else (c, []) := by
-  have hd : ∀ c' : Conn, c'.state = st_ACTIVE → c'.sock = true →
-      disconnect env st_DISCONNECTED_BROKEN_CONN none c' = ⟨.ok (), dropped c', dropEff⟩ := by
-    intro c' h1 h2
-    exact disconnect_up env c' (by rw [h1]; decide) h2
-  by_cases hidle : (c.hb - 1) * 1000 < env.now - c.lastTime
-  · have hz : ¬ (c.hb * 2 * 1000 < 0) := by omega
-    by_cases hex : c.hb * 2 * 1000 < env.now - id * 1000
-    · simp [tick, M.run, tickBody, hs, ha, hid, h0, hidle, hex, hz]
-      rw [hd _ rfl rfl]
+  have hd : disconnect env st_DISCONNECTED_BROKEN_CONN none c = ⟨.ok (), dropped c, dropEff⟩ :=
+    disconnect_up env c (by rw [ha]; decide) hs
+  by_cases hA : c.hb * 2 * 1000 < env.now - c.lastTime
+  · by_cases hL : c.lastTime = 0
+    · by_cases hX : c.hb * 2 * 1000 < env.now - id * 1000
+      · have hA0 : c.hb * 2 * 1000 < env.now := by omega
+        simp [tick, M.run, tickBody, hs, ha, hid, h0, hL, hX, hA0]
+        rw [hd]
+      · simp [tick, M.run, tickBody, hs, ha, hid, h0, hL, hX]
+    · simp [tick, M.run, tickBody, hs, ha, hid, h0, hA, hL]
+      rw [bind_ok hd]
       simp [dropped]
-    · simp [tick, M.run, tickBody, hs, ha, hid, h0, hidle, hex, hz]
-  · have h4 : ¬ (c.hb * 2 * 1000 < env.now - c.lastTime) := by omega
-    by_cases hex : c.hb * 2 * 1000 < env.now - id * 1000
-    · simp [tick, M.run, tickBody, hs, ha, hid, h0, hidle, hex, h4]
-      rw [hd _ ha hs]
-    · simp [tick, M.run, tickBody, hs, ha, hid, h0, hidle, hex, h4]
+  · simp [tick, M.run, tickBody, hs, ha, hid, h0, hA]
 
 /-- the TestRequest frame a tick at `env` writes -/
 def testReqFrame (env : Env) (c : Conn) : Msg := frameOf env (armed env c) (testReqMsg env)
